@@ -136,6 +136,33 @@ def c14_footprint(which: int, boost: int, nfiles: int) -> bool:
     return ok
 
 
+import itertools
+PERMS = list(itertools.permutations(["part_a", "multi", "part_b"]))
+
+
+def c14_source_order(perm: int, boost: int) -> bool:
+    """
+    The main output lists the additional files in the order given, for every permutation of three files (an
+    ordering taken from a hash-based container cannot agree with all six).
+    pre: 0 <= perm < 6 and 0 <= boost <= 1
+    post: _
+    """
+    perm, boost = pick(perm, 0, 6), pick(boost, 0, 2)
+    with concrete():
+        import re
+        names = list(PERMS[perm])
+        srcs = [os.path.join(DATA, "main.i")] + [os.path.join(DATA, n + ".i") for n in names]
+        with patched_io() as rec:
+            w = PybindWrapper(module_name="mod", top_module_namespaces=[''], use_boost_serialization=bool(boost), ignore_classes=[''], module_template=tpl())
+            w.wrap(list(srcs), "out.cpp")
+            out = rec.written.get("out.cpp", "")
+        decls = re.findall(r"^void (\w+)\(py::module_ &\);$", out, re.M)
+        inits = re.findall(r"^(\w+)\(m_\);$", out, re.M)
+        ok = (decls == names and inits == names) or _fail(sources=names, declared=decls, invoked=inits)
+    reached({"order": PERMS[perm]})
+    return ok
+
+
 class MemFS:
     """in-memory file system that persists across runs inside one harness execution (a "build directory")"""
 
@@ -269,6 +296,7 @@ def conds(tier):
                 bounds="%d-text pool, 0-2 earlier wrap_file calls, both serialization settings" % NT),
         xh.Cond(M, "c14_xml_memory", t(120, 600), kind=sb, examples=["times=2, nover=1", "times=2, nover=2"], bounds="1-3 repeated runs x 1-3 indistinguishable overloads"),
         xh.Cond(M, "c14_footprint", t(200, 900), kind=sb, examples=["which=0, boost=1, nfiles=3", "which=2, boost=0, nfiles=2"], bounds="3 entry points x serialization x 1-3 source files"),
+        xh.Cond(M, "c14_source_order", t(120, 600), kind=sb, examples=["perm=0, boost=0", "perm=5, boost=1"], bounds="6 permutations of 3 additional files x serialization"),
         xh.Cond(M, "c14_previous_run", t(120, 600), kind=sb, examples=["r=0, swap=0", "r=2, swap=1"], bounds="%d revision pairs (same-length edits) x both orders, MATLAB output directory kept between the two runs" % len(REVISIONS)),
         xh.Cond(M, "c14_repeat_fresh", t(120, 600), kind=sb, examples=["t=2, boost=1"], bounds="%d texts x serialization" % NT),
     ]
